@@ -94,7 +94,7 @@ func (h *Handler) findOrCreate(clientID []byte, mac net.HardwareAddr, name strin
 			lease.Name = name
 		}
 		// if lease.subnet.LAN.IP.Mask(lease.subnet.LAN.Mask).Equal(subnet.LAN.IP.Mask(subnet.LAN.Mask)) &&
-		if lease.subnet.LAN == subnet.LAN &&
+		if lease.subnet == subnet && // (the two subnets can have the same prefix: compare the subnets, not their prefixes)
 			bytes.Equal(lease.Addr.MAC, mac) {
 			return lease
 		}
